@@ -86,10 +86,16 @@ func (x *Exec) finishUnit(u *Unit, t0 time.Time) *Unit {
 	// a contract that names a variable, field or call the code no longer has does not fit the code
 	// any more: that is a (contract-shape) violation of the claimed clause, not a broken check.
 	// Follow-up evaluation errors of the same unit are consequences and are folded into it.
+	// ... but only for names that belong to the function's interface as the contract header
+	// records it (parameters, results) or to a callee ($ret): a vanished plain local is a rename
+	// or refactoring the contract has to follow, reported as a broken check (exit 2), never as a
+	// violation of the property.
 	var missing []string
 	for m := range x.unsupported {
-		if nameResolutionRE.MatchString(m) {
-			missing = append(missing, m)
+		if sm := nameResolutionRE.FindStringSubmatch(m); sm != nil {
+			if strings.HasPrefix(sm[1], "$ret") || (x.topC != nil && (containsStr(x.topC.Params, sm[2]) || containsStr(x.topC.Results, sm[2]))) {
+				missing = append(missing, m)
+			}
 		}
 	}
 	if len(missing) > 0 {
@@ -128,6 +134,15 @@ func (x *Exec) finishUnit(u *Unit, t0 time.Time) *Unit {
 }
 
 var nameResolutionRE = regexp.MustCompile(`^spec: (unknown identifier|caller has no variable|no field|\$ret: no call of|\$ret\()\s*([\w$.]+)`)
+
+func containsStr(l []string, s string) bool {
+	for _, e := range l {
+		if e == s {
+			return true
+		}
+	}
+	return false
+}
 
 func fieldWriteInScope(fw *FieldWriteContract, pkgPath string) bool {
 	if len(fw.In) == 0 {
